@@ -61,7 +61,7 @@ schema(A.Member, name='str', value='int|str', symbol='str', nick='str?', dump_na
 schema(A.Compound, ctype='str?', methods='list[Function]', static_methods='list[Function]',
        fields='list[Field]', constructors='list[Function]', disguised='bool', opaque='bool', pointer='bool',
        c_symbol_prefix='str?', tag_name='str?')
-schema(A.Field, name='str?', type='Type?', readable='bool', writable='bool', bits='int?',
+schema(A.Field, name='str?', type='Type?', readable='bool', writable='bool', bits='int|str?',
        anonymous_node='Callback|Record|Union?', private='bool', namespace='Namespace?', parent='any')
 schema(A.Record, is_gtype_struct_for='Type?', copy_func='str?', free_func='str?')
 schema(A.Union, copy_func='str?', free_func='str?')
@@ -151,7 +151,8 @@ schema(_io.StringIO, buf='str')
 schema(xmlwriter.XMLWriter, _data='StringIO', _tag_stack='list[str]', _indent='int', _indent_unit='int',
        _indent_char='str', _newline_char='str')
 
-schema(girwriter.GIRWriter, sources_roots='list[str]', _namespace='Namespace?')
+# _namespace is None outside _write_namespace; every function under contract runs inside it (data invariant, assumed)
+schema(girwriter.GIRWriter, sources_roots='list[str]', _namespace='Namespace')
 
 from givc.contracts import helper_loop   # noqa
 # Callable.parameters setter: re-parents every parameter
